@@ -18,6 +18,11 @@ func VH_C14_Threshold() {
 		padLen = []int{4095, 4096, 4097, 8193, 16385, 32769, 65537, 131073, 300001}[symChoice(symParam("PADS", 9))]
 	}
 	pad := vhRepeat('a', padLen)
+	if symParam("PADSET", 0) == 1 {
+		// the padding may end in a multi-byte character, which then lies across the size boundary
+		mark := []string{"", "\xc3\xa9", "\xe2\x82\xac", "\xf0\x9d\x84\x9e"}[symChoice(4)]
+		pad = vhRepeat('a', padLen-len(mark)) + mark
+	}
 	x := symString(1)
 	where := symChoice(2)
 	o0, e0 := vhPadRender(s, x)
